@@ -89,6 +89,13 @@ func main() {
 			fmt.Printf("%s\t%d\t%s\n", pf, len(fired), strings.Join(fired, " "))
 		}
 		os.Exit(code)
+	case "lockleaks":
+		prog, err := core.Load("/repo", nil, "")
+		if err != nil {
+			fmt.Fprintln(os.Stderr, err)
+			os.Exit(2)
+		}
+		rules.LockLeakSurvey(prog)
 	case "describe":
 		ids := make([]string, 0)
 		for id := range rules.Registry {
